@@ -54,7 +54,7 @@ impl Pattern {
 }
 
 pub const APP_NAMES: [&str; 6] = ["put_slice", "extend_from_slice", "put_bytes", "resize", "extend(iter)", "reserve+chunk_mut+advance_mut"];
-pub const CONS_NAMES: [&str; 5] = ["split()", "split_to(f)", "advance(f)", "clear()", "split_off(f) keeping the tail"];
+pub const CONS_NAMES: [&str; 8] = ["split()", "split_to(f)", "advance(f)", "clear()", "split_off(f) keeping the tail", "Buf::copy_to_bytes(f)", "Buf::copy_to_bytes(remaining())", "(&mut buf).take(f).copy_to_bytes(f)"];
 pub const FATE_NAMES: [&str; 7] = ["drop", "freeze, drop", "keep k rounds", "freeze, clone, keep clone k rounds", "unsplit back, then advance", "Vec::from(part), drop", "Vec::from(part.freeze()), drop"];
 
 enum Part {
@@ -90,7 +90,7 @@ pub fn run_pattern(p: &Pattern, n: u64) -> RunRes {
     res.bound_allocs = (2.0 * ((8 * w) as f64).log2()).ceil() as u64 + 8;
     let mut shapes = HashSet::new();
     for r in &p.rounds {
-        shapes.insert((r.app_m % 6, r.cons_m % 5, r.fate % 7, r.reserve > 0));
+        shapes.insert((r.app_m % 6, r.cons_m % 8, r.fate % 7, r.reserve > 0));
     }
     res.shapes = shapes.len();
     oalloc::set_quarantine(false);
@@ -216,22 +216,53 @@ pub fn run_pattern(p: &Pattern, n: u64) -> RunRes {
         let len = buf.len();
         let at = (len * (r.frac as usize % 17)) / 16;
         let mut part: Option<BytesMut> = None;
-        let (cr, cd) = match r.cons_m % 5 {
+        // a part taken through the Buf trait is already frozen
+        let mut part_b: Option<Bytes> = None;
+        let (cr, cd) = match r.cons_m % 8 {
             0 => call(|| part = Some(buf.split())),
             1 => call(|| part = Some(buf.split_to(at))),
             2 => call(|| buf.advance(at)),
             3 => call(|| buf.clear()),
-            _ => call(|| {
+            4 => call(|| {
                 let tail = buf.split_off(at);
                 part = Some(std::mem::replace(&mut buf, tail));
             }),
+            5 => call(|| part_b = Some(Buf::copy_to_bytes(&mut buf, at))),
+            6 => call(|| part_b = Some(Buf::copy_to_bytes(&mut buf, len))),
+            _ => call(|| part_b = Some(Buf::take(&mut buf, at).copy_to_bytes(at))),
         };
         buf_allocs += cd.byte_allocs;
         if cr.is_err() {
-            fail(&mut res, "consume-panicked", format!("round {}: {}", i, CONS_NAMES[(r.cons_m % 5) as usize]));
+            fail(&mut res, "consume-panicked", format!("round {}: {}", i, CONS_NAMES[(r.cons_m % 8) as usize]));
             break;
         }
         // fate of the part
+        if let Some(pb) = part_b {
+            let due = i + 1 + k as u64;
+            match r.fate % 7 {
+                5 | 6 => {
+                    let _ = call(move || drop(Vec::from(pb)));
+                }
+                2 if k > 0 => kept.push_back((due, Part::B(pb))),
+                3 => {
+                    let (c, _) = call(move || {
+                        let c = pb.clone();
+                        drop(pb);
+                        c
+                    });
+                    if let Ok(c) = c {
+                        if k == 0 {
+                            let _ = call(move || drop(c));
+                        } else {
+                            kept.push_back((due, Part::B(c)));
+                        }
+                    }
+                }
+                _ => {
+                    let _ = call(move || drop(pb));
+                }
+            }
+        }
         if let Some(pt) = part {
             let due = i + 1 + k as u64;
             match r.fate % 7 {
@@ -353,7 +384,7 @@ pub fn run_pattern(p: &Pattern, n: u64) -> RunRes {
 fn round_strategy() -> BoxedStrategy<Round> {
     let m = prop_oneof![4 => 1u32..=64, 3 => 65u32..=1500, 1 => Just(4096u32), 1 => Just(0u32), 1 => Just(1024u32)];
     let reserve = prop_oneof![5 => Just(0u32), 2 => 1u32..=4096, 1 => Just(65536u32), 1 => Just(128u32)];
-    (reserve, 0u8..6, m, 0u8..5, 0u8..=16, 0u8..7).prop_map(|(reserve, app_m, m, cons_m, frac, fate)| Round { reserve, app_m, m, cons_m, frac, fate }).boxed()
+    (reserve, 0u8..6, m, 0u8..8, 0u8..=16, 0u8..7).prop_map(|(reserve, app_m, m, cons_m, frac, fate)| Round { reserve, app_m, m, cons_m, frac, fate }).boxed()
 }
 pub fn pattern_strategy(max_period: usize) -> BoxedStrategy<Pattern> {
     let caps = prop_oneof![2 => Just(0u32), 2 => 1u32..=128, 2 => Just(1024u32), 1 => Just(4096u32), 1 => Just(65536u32), 1 => Just(65535u32), 1 => 129u32..=9000];
